@@ -420,6 +420,7 @@ def build_machine(case, world, cls=None, model=None, extra_kwargs=None, models=N
     m = case['machine']
     if cls is None:
         cls = tr.Machine
+    pending_self = []       # (name, slot, cb) of callbacks given by name on a machine that is its own model
     if models is not None:
         def R(slot, cb):
             name = 'cb_%s_%d' % (slot, cb)
@@ -430,7 +431,6 @@ def build_machine(case, world, cls=None, model=None, extra_kwargs=None, models=N
     elif case.get('self_model') and model is None:
         # the machine is its own model (the library's default model='self'): callbacks are given by NAME and become
         # recording attributes of the machine object once it exists
-        pending_self = []
 
         def R(slot, cb):
             name = 'cb_%s_%d' % (slot, cb)
